@@ -7,5 +7,6 @@ CONSTANTS
   CloseLatches = TRUE
   TimeoutReleases = FALSE
   HandlerControlPath = TRUE
+  TimeoutFaultLatches = TRUE
 INVARIANTS TypeOK WholeFrames
 CHECK_DEADLOCK FALSE
